@@ -284,3 +284,153 @@ def _decimal_to_xml_runs(neg, digit, a, b, c, d):
     except Exception as ex:  # noqa: BLE001
         return exc_result(orc, ex, 'decimal_to_xml_runs')
     return orc.result()
+
+
+# ------------------------------------------------------------------------------------------------ durations, XML -> Python
+
+DUR_H = (None, '0', '3', '100')
+DUR_M = (None, '0', '7', '90')
+DUR_S = ('0', '5', '59', '120')
+
+
+def duration_parse_runs(h: int, m: int, s: int, dg: int, a: int, b: int, c: int, slim: bool = False) -> str:
+    """
+    parse_duration on PT[nH][nM]n[.f]S with hours / minutes / seconds from small pools and the fraction f assembled from digit
+    runs '0'*a + D*b + '9'*c (0..9 fractional digits: the schema and the SDPi grammar allow any number): the result is the exact
+    value within the documented microsecond resolution, and writing it with duration_string and parsing again changes nothing.
+    pre: 0 <= h < 4
+    pre: 0 <= m < 4
+    pre: 0 <= s < 4
+    pre: 1 <= dg <= 9
+    pre: 0 <= a <= 9
+    pre: 0 <= b <= 9
+    pre: 0 <= c <= 9
+    pre: a + b + c <= 9
+    post: __return__ == 'ok'
+    """
+    if slim:    # quick tier: hours / minutes absent or present (2 x 2), seconds 59, digit D in {1, 5, 9}
+        h, m, s, dg = bpick(h, 2) * 2, bpick(m, 2) * 2, 2, (1, 5, 9)[bpick(dg - 1, 3)]
+    else:
+        h, m, s, dg = bpick(h, 4), bpick(m, 4), bpick(s, 4), bpick(dg - 1, 9) + 1
+    a, b, c = bpick(a, 10), bpick(b, 10), bpick(c, 10)
+    with untraced():
+        orc = Oracle()
+        try:
+            from sdc11073.xml_types import isoduration
+            frac = '0' * a + str(dg) * b + '9' * c
+            text = 'PT' + (DUR_H[h] + 'H' if DUR_H[h] else '') + (DUR_M[m] + 'M' if DUR_M[m] else '') + DUR_S[s] + \
+                   ('.' + frac if frac else '') + 'S'
+            exact = Fraction(int(DUR_H[h] or 0) * 3600 + int(DUR_M[m] or 0) * 60 + int(DUR_S[s])) + \
+                (Fraction(int(frac), 10 ** len(frac)) if frac else 0)
+            try:
+                got = isoduration.parse_duration(text)
+            except Exception as ex:  # noqa: BLE001
+                return exc_result(orc, ex, 'parse_duration(valid-literal)')
+            # microsecond resolution: at most half a microsecond from the exact value (+ one float ulp of slack)
+            orc.check(abs(Fraction(got) - exact) <= Fraction(1, 2 * 10 ** 6) + Fraction(1, 10 ** 9), 'duration_parse_value_wrong')
+            again = isoduration.parse_duration(isoduration.duration_string(got))
+            orc.check(again == got, 'duration_python_xml_python_changes_value')
+        except Exception as ex:  # noqa: BLE001
+            return exc_result(orc, ex, 'harness')
+        return orc.result()
+
+
+# ------------------------------------------------------------------------------------------------ date / time values
+
+DT_SECONDS = (0.0, 5.5, 59.999999, 7.000001, 30.25)
+TZ_LEXICAL = __import__('re').compile(r'^(Z|[+-](0\d|1[0-3]):[0-5]\d|[+-]14:00)?$')
+
+
+def _ref_tz(tz):
+    """Reference spelling of a time zone (independent of the library): '' / Z / (+|-)hh:mm."""
+    if tz is None:
+        return ''
+    minutes = tz.utcoffset(None) // __import__('datetime').timedelta(minutes=1)
+    if minutes == 0:
+        return 'Z'
+    return ('-' if minutes < 0 else '+') + '%02d:%02d' % divmod(abs(minutes), 60)
+
+
+HEAD_LEXICAL = __import__('re').compile(r'^-?\d{4,}(-\d\d(-\d\d(T\d\d:\d\d:\d\d(\.\d+)?)?)?)?$')
+
+
+def _dt_roundtrip(orc, info):
+    from sdc11073.xml_types import isoduration
+    text = str(info)
+    ref = _ref_tz(info.tz_info)
+    orc.check(text.endswith(ref) and HEAD_LEXICAL.match(text[:len(text) - len(ref)]) is not None and TZ_LEXICAL.match(ref) is not None,
+              'date_time_text_wrong_timezone_or_not_lexical')
+    try:
+        back = isoduration.parse_date_time(text)
+    except Exception as ex:  # noqa: BLE001
+        orc.fail('own_date_time_string_not_parseable:' + type(ex).__name__)
+        return
+    for f in ('year', 'month', 'day', 'hour', 'minute', 'end_of_day'):
+        orc.check(getattr(back, f) == getattr(info, f), 'date_time_roundtrip_changes_' + f)
+    if info.second is None:
+        orc.check(back.second is None, 'date_time_roundtrip_changes_second')
+    else:
+        orc.check(back.second is not None and abs(back.second - info.second) < 1e-6, 'date_time_roundtrip_changes_second')
+    off_a = None if info.tz_info is None else info.tz_info.utcoffset(None)
+    off_b = None if back.tz_info is None else back.tz_info.utcoffset(None)
+    orc.check(off_a == off_b, 'date_time_roundtrip_changes_timezone')
+    orc.check(str(back) == text, 'date_time_xml_python_xml_changes_text')
+
+
+def datetime_timezones(m: int, with_time: bool) -> str:
+    """
+    Every time-zone offset xsd allows (whole minutes in [-14:00, +14:00]: 1681 values, enumerated through the solver) on a date
+    and on a date-time value: Python -> XML gives a lexically valid text, XML -> Python gives the same offset, XML again the same text.
+    pre: -840 <= m <= 840
+    post: __return__ == 'ok'
+    """
+    m = bpick(m + 840, 1681) - 840
+    with_time = bool(with_time)
+    with untraced():
+        orc = Oracle()
+        try:
+            import datetime
+            from sdc11073.xml_types import isoduration
+            tz = datetime.timezone(datetime.timedelta(minutes=m))
+            if with_time:
+                info = isoduration.XsdDateInformation(year=1990, month=5, day=17, hour=8, minute=30, second=0.0, tz_info=tz)
+            else:
+                info = isoduration.XsdDateInformation(year=1990, month=5, day=17, tz_info=tz)
+            _dt_roundtrip(orc, info)
+        except Exception as ex:  # noqa: BLE001
+            return exc_result(orc, ex, 'harness')
+        return orc.result()
+
+
+def datetime_fields(kind: int, ssel: int, tzsel: int, ysel: int) -> str:
+    """
+    The four value kinds (gYear, gYearMonth, date, dateTime, dateTime at end of day) x seconds pool x time zone (none, UTC,
+    +01:30, -00:30, -14:00) x year pool (1, 1990, 12345, -44): str -> parse_date_time -> str round trip.
+    pre: 0 <= kind < 5
+    pre: 0 <= ssel < 5
+    pre: 0 <= tzsel < 5
+    pre: 0 <= ysel < 4
+    post: __return__ == 'ok'
+    """
+    kind, ssel, tzsel, ysel = bpick(kind, 5), bpick(ssel, 5), bpick(tzsel, 5), bpick(ysel, 4)
+    with untraced():
+        orc = Oracle()
+        try:
+            import datetime
+            from sdc11073.xml_types import isoduration
+            tz = (None, datetime.timezone.utc, datetime.timezone(datetime.timedelta(minutes=90)),
+                  datetime.timezone(datetime.timedelta(minutes=-30)), datetime.timezone(datetime.timedelta(hours=-14)))[tzsel]
+            year = (1, 1990, 12345, -44)[ysel]
+            kw = {'year': year, 'tz_info': tz}
+            if kind >= 1:
+                kw['month'] = 12
+            if kind >= 2:
+                kw['day'] = 31
+            if kind == 3:
+                kw.update(hour=23, minute=59, second=DT_SECONDS[ssel])
+            if kind == 4:
+                kw['end_of_day'] = True
+            _dt_roundtrip(orc, isoduration.XsdDateInformation(**kw))
+        except Exception as ex:  # noqa: BLE001
+            return exc_result(orc, ex, 'harness')
+        return orc.result()
